@@ -198,6 +198,21 @@ class Interp:
                 return fresh("size")
             if cal.startswith("std::move") and len(e["args"]) == 1:
                 return self.val(e["args"][0], st)
+            if "this" in e and e.get("this") is not None and not e["args"] and self.prog is not None and self.obj_of(e["this"]) in ("this", "other"):
+                # a const getter of the class called on *this or on the source: `return member_;`
+                g_ = [f for f in self.prog.fns(cal) if not f["params"] and f.get("body") is not None and f.get("constm")]
+                if len(g_) == 1:
+                    b_ = g_[0]["body"]
+                    st_ = b_["s"] if b_.get("k") == "Block" else [b_]
+                    if len(st_) == 1 and st_[0].get("k") == "Return" and st_[0].get("e") is not None:
+                        r_ = st_[0]["e"]
+                        while r_.get("k") in ("Paren", "Cast", "ImplicitCast") and r_.get("e") is not None:
+                            r_ = r_["e"]
+                        if r_.get("k") == "Field" and r_.get("base") is not None and r_["base"].get("k") == "This" and r_["field"] in self.fields:
+                            d_ = st.this if self.obj_of(e["this"]) == "this" else st.other
+                            v_ = d_[r_["field"]]
+                            if not isinstance(v_, Arr):
+                                return v_
             if cal.startswith("std::exchange") and len(e["args"]) == 2:
                 # std::exchange(x, new): yields the old value of x and stores new in x
                 fr2 = self.field_ref(e["args"][0])
@@ -412,6 +427,34 @@ class Interp:
                 return
         # anything else: ignore (asserts are compiled out)
 
+    def inline_paths(self, e, st):
+        """statement-level call of a method of the same class on *this (a setter, a helper with an `if`): interpreted in
+        place on every path; None if the callee is not a single definition in the program"""
+        cands = [f for f in self.prog.fns(e["callee"]) if len(f["params"]) == len(e["args"]) and f.get("body") is not None]
+        if len(cands) != 1 or cands[0].get("special") or cands[0].get("inits"):
+            return None
+        fn = cands[0]
+        added = []
+        trial = st.clone()
+        for p, a in zip(fn["params"], e["args"]):
+            if self.obj_of(a) == "other":
+                self.other_ids.add(p["id"])
+                added.append(p["id"])
+            else:
+                trial.locals[p["id"]] = self.val(a, trial)
+        self.depth += 1
+        try:
+            body = fn["body"]
+            ends = self.exec_block(body["s"] if body["k"] == "Block" else [body], [trial])
+        finally:
+            self.depth -= 1
+            for i in added:
+                self.other_ids.discard(i)
+        for x in ends:
+            x.returned = False
+            x.trace.append("(inlined %s)" % e["callee"])
+        return ends
+
     def inline_call(self, e, st):
         """a call of a method of the same class on *this whose definition is in the IR (a helper shared by copy constructor
         and copy assignment): interpreted in place, its parameters bound to the arguments.  Only straight-line helpers that
@@ -521,6 +564,11 @@ class Interp:
         if k == "Block":
             return self.exec_block(s["s"], [st])
         if k == "Expr":
+            e_ = s["e"]
+            if e_.get("k") == "Call" and "this" in e_ and self.obj_of(e_.get("this")) == "this" and self.prog is not None and self.depth < 3:
+                ends = self.inline_paths(e_, st)
+                if ends is not None:
+                    return ends
             self.exec_expr(s["e"], st)
             return [st]
         if k == "Decl":
